@@ -3,7 +3,7 @@ import re
 
 from core import strip, strip_parens, is_field, key_str, key_mentions
 from facts import AnalysisBroken
-from rules import (nodeset, callpred, atom_from, reach, ev, Unevaluable)
+from rules import (field_load, nodeset, callpred, atom_from, reach, ev, Unevaluable)
 
 EXPLANATION = (
     "Abstractly interprets the x86-64 fiber_context_swap template over a symbolic stack: the registers pushed, in order, are "
@@ -239,9 +239,9 @@ def check_fresh(ctx, P, R, tag=""):
     bad = None
     npop = len(R["pops"])
     loads = {e[3]: e[2] for e in R["events"] if e[0] == "load"}
-    is_sp = lambda n: n.k == "ImplicitCastExpr" and n.ck == "LValueToRValue" and strip(n).k == "MemberExpr" and strip(n).field == "ctx_stack_pointer"
-    is_base = lambda n: n.k == "ImplicitCastExpr" and n.ck == "LValueToRValue" and strip(n).k == "MemberExpr" and strip(n).field == "ctx_stack"
-    is_size = lambda n: n.k == "ImplicitCastExpr" and n.ck == "LValueToRValue" and strip(n).k == "MemberExpr" and strip(n).field == "ctx_stack_size"
+    is_sp = field_load("ctx_stack_pointer")
+    is_base = field_load("ctx_stack")
+    is_size = field_load("ctx_stack_size")
     TAG = {"param": 0xA11, "run_function": 0xF00}
     for base, size in ((0x100000, 4096), (0x100000, 100008), (0x100010, 16385), (0x7f0000001008, 102400), (0x100000, 4046 * 26)):
         sp = None
@@ -314,7 +314,7 @@ def check_stack(ctx, P, strategy, tag=""):
         if fn.name != "fiber_context_destroy":
             bad = bad or "fiber_free_stack called from %s" % fn.name
         else:
-            isth = lambda n: n.k == "ImplicitCastExpr" and n.ck == "LValueToRValue" and strip(n).k == "MemberExpr" and strip(n).field == "is_thread"
+            isth = field_load("is_thread")
             isctx = lambda n: n.k == "ImplicitCastExpr" and n.ck == "LValueToRValue" and strip(n).k == "DeclRefExpr" and strip(n).dk == "param"
             if reach(fn, [c], atom_from([(isth, 1), (isctx, 4096)])):
                 bad = bad or "a thread context's stack would be released"
